@@ -67,6 +67,7 @@ var propC11 = parserProp{
 		o := defaultHistOpts()
 		o.ntl = 10
 		o.maxText = 300
+		o.suffixPct = 15
 		o.readFrom = 1
 		o.resetDat = 1
 		return o
